@@ -32,7 +32,7 @@ def thresholds(tier):
 
 def knobs_for(rng):
   return {"depth": rng.choice([1, 2, 2, 3]), "max_children": rng.choice([2, 3]), "p_ff": 0.25, "p_connect": 0.4, "p_split": 0.3,
-          "p_struct": 0.25, "p_list": 0.2, "max_sigs": 4, "expr_depth": 1, "p_constraints": 0.7, "p_ff_child": rng.choice([0, 0.3])}
+          "p_struct": 0.25, "p_list": 0.2, "max_sigs": 4, "expr_depth": 1, "p_constraints": 0.7, "p_ff_child": rng.choice([0, 0.3]), "p_func": rng.choice([0, 0.3])}
 
 
 def nm(x):
